@@ -6,6 +6,10 @@ props = [json.loads(l) for l in open(os.path.join(V, 'properties.jsonl'))]
 
 # id -> (technique, level text, level note, design ref)
 CHECKS = {
+ "C01": ("small-scope exhaustive enumeration + proptest + numeric boundary sweep; validity predicate 'returns' under catch_unwind with overflow checks (libFuzzer target 'ops' in the thorough tier)",
+         "Exploration: every string up to length 4 over a 24/40-character alphabet holding 1-4-byte characters of every role the code branches on, millions of random strings, all surrogates / out-of-range code points and extreme offsets, each pushed through every public operation (~170 calls per string).",
+         "A panic is observed through catch_unwind; a hard crash of the process is isolated by a single-threaded re-run with a breadcrumb file (see ./check).",
+         "DESIGN.md 3/C01"),
  "C02": ("proptest + small-scope enumeration against a reference scan (first offender, code-point positions, RFC 5892 reference rules); generated user classes",
          "Exploration: all labels up to length 3/4 over a 30-character alphabet, millions of proptest labels for both standard classes and generated user-supplied classes (random assignments of the 7 derived-property values), compared with a reference scan that yields the set of allowed results.",
          "Classification is the class's own get_value_from_char (C14 decides that); context truth comes from my RFC 5892 reference rules over the pinned UCD 6.3.0 data.",
@@ -62,6 +66,10 @@ CHECKS = {
          "Exploration: thousands of synthetic UnicodeData/Scripts/JoiningType/PropList/CoreProperties/HangulSyllableType directories (single lines and First/Last pairs in every adjacency, all categories, all 23 bidi classes, wide/narrow/compat decompositions), variations of the pinned files, and the pinned files themselves; all 47 emitted tables are rebuilt as Vec<precis_core::Codepoints> and compared with my own parse at every input/entry boundary +-2 (complete for piecewise-constant tables) or at all 1,114,112 code points (pinned), including searchability and single-valuedness.",
          "Trusts my reader of the generators' rigid emitted syntax (declared length must equal the entry count), my UCD parsers, and that real UCD files never assign noncharacters / stay below U+10FFFE.",
          "DESIGN.md 3/C15"),
+ "C16": ("differential proptest over API forms and argument forms, model-based call histories, and first-use races in re-executed child processes",
+         "Exploration: every generated input through all API forms (fresh new/default, long-lived per thread, shared by 16 threads, static fast invocation) x argument forms while 16 threads run; histories of up to 40 calls compared step by step with fresh instances; dozens to a thousand child processes whose very first library calls race on a barrier. Schedules are sampled, not controlled.",
+         "The harness does not own the scheduler: strong against leaked state (caches, thread-locals, differently configured statics), weak against a race that needs one specific interleaving.",
+         "DESIGN.md 3/C16"),
  "C17": ("proptest structured rows and files (round trip against the generator's structured row, malformed rows by construction), differential against an independent CSV reader on the IANA file",
          "Exploration: millions of generated well-formed and malformed rows through PrecisDerivedProperty/DerivedProperties/DerivedProperty::from_str, tens of thousands of generated files through CsvLineParser::from_path (header skipped, file order, line numbers of errors, LF/CRLF, final newline), and the real registry file against my own reader.",
          "Does not assert either way on lower-case or sign-prefixed hex, over-long zero padding and reversed ranges (the code never claims them).",
